@@ -21,6 +21,7 @@ import (
 	"context"
 	"crypto/sha256"
 	"crypto/x509"
+	"encoding/base64"
 	"encoding/hex"
 	"errors"
 	"net/http"
@@ -191,6 +192,14 @@ func (a *jwtAuthenticator) Execute(ctx heimdall.Context) (*subject.Subject, erro
 			CausedBy(err)
 	}
 
+	if err = assertCanonicalSerialization(jwtAd); err != nil {
+		return nil, errorchain.
+			NewWithMessage(heimdall.ErrAuthentication, "failed to parse JWT").
+			WithErrorContext(a).
+			CausedBy(heimdall.ErrArgument).
+			CausedBy(err)
+	}
+
 	rawClaims, err := a.verifyToken(ctx, token)
 	if err != nil {
 		return nil, err
@@ -205,6 +214,25 @@ func (a *jwtAuthenticator) Execute(ctx heimdall.Context) (*subject.Subject, erro
 	}
 
 	return sub, nil
+}
+
+// assertCanonicalSerialization refuses compact serializations which are not the one and only
+// base64url encoding of their header, payload and signature octets. The lenient decoder used for
+// parsing ignores line breaks and the unused bits of the last character of a segment, and the
+// signature is verified over the re-encoded segments. Without this check each token would have
+// further spellings which are accepted as well.
+func assertCanonicalSerialization(value string) error {
+	if strings.ContainsAny(value, "\r\n") {
+		return errors.New("line breaks in the serialized JWT")
+	}
+
+	for _, segment := range strings.Split(value, ".") {
+		if _, err := base64.RawURLEncoding.Strict().DecodeString(segment); err != nil {
+			return err
+		}
+	}
+
+	return nil
 }
 
 func (a *jwtAuthenticator) WithConfig(config map[string]any) (Authenticator, error) {
